@@ -39,9 +39,12 @@ def extract_inputs(c, tci, kcals_monthly, start=5):
         "N": N, "start": start,
         "fish": {"add": bool(c["ADD_FISH"]), "annual": float(c["FISH_DRY_CALORIC_ANNUAL"]),
                  "wd": float(c["WASTE_DISTRIBUTION"]["SEAFOOD"]), "wr": float(c["WASTE_RETAIL"]),
-                 "pct": fl(tci["FISH_PERCENT_MONTHLY"])},
-        "feed": {"per_year": float(c["FEED_KCALS"]), "dur": int(d["FEED_SHUTOFF_MONTHS"])},
-        "biofuel": {"per_year": float(c["BIOFUEL_KCALS"]), "dur": int(d["BIOFUEL_SHUTOFF_MONTHS"])},
+                 "pct": fl(tci["FISH_PERCENT_MONTHLY"]), "fat_annual": float(c["FISH_FAT_TONS_ANNUAL"]),
+                 "protein_annual": float(c["FISH_PROTEIN_TONS_ANNUAL"])},
+        "feed": {"per_year": float(c["FEED_KCALS"]), "dur": int(d["FEED_SHUTOFF_MONTHS"]),
+                 "fat": float(c["FEED_FAT"]), "protein": float(c["FEED_PROTEIN"])},
+        "biofuel": {"per_year": float(c["BIOFUEL_KCALS"]), "dur": int(d["BIOFUEL_SHUTOFF_MONTHS"]),
+                    "fat": float(c["BIOFUEL_FAT"]), "protein": float(c["BIOFUEL_PROTEIN"])},
         "grass": {"baseline": float(c["HUMAN_INEDIBLE_FEED_BASELINE_MONTHLY"]),
                   "ratios": [float(c["RATIO_GRASSES_YEAR%d" % y]) for y in range(1, N // 12 + 1)]},
         "scp": {"add": bool(c["ADD_METHANE_SCP"]), "delay": int(d.get("INDUSTRIAL_FOODS_MONTHS", 0)),
@@ -82,12 +85,16 @@ def run_synthetic(case):
     def fish():
         s = Seafood(c)
         s.set_seafood_production(tci)
+        obs["fish_fat"] = fl(s.to_humans.fat)
+        obs["fish_protein"] = fl(s.to_humans.protein)
         return fl(s.to_humans.kcals)
 
     def demands():
         fb = FeedAndBiofuels(c)
         bio, feed = fb.get_biofuels_and_feed_from_delayed_shutoff(c)
         obs["biofuel"] = fl(bio.kcals)
+        obs["biofuel_fat"], obs["biofuel_protein"] = fl(bio.fat), fl(bio.protein)
+        obs["feed_fat"], obs["feed_protein"] = fl(feed.fat), fl(feed.protein)
         obs["feed_units"] = feed.kcals_units
         return fl(feed.kcals)
 
@@ -100,11 +107,13 @@ def run_synthetic(case):
         m = MethaneSCP(c)
         m.calculate_monthly_scp_caloric_production(c)
         m.calculate_scp_fat_and_protein_production()
+        obs["scp_fat"], obs["scp_protein"] = fl(m.production.fat), fl(m.production.protein)
         return fl(m.production.kcals)
 
     def cs():
         m = CellulosicSugar(c)
         m.calculate_monthly_cs_production(c)
+        obs["cs_fat"], obs["cs_protein"] = fl(m.production.fat), fl(m.production.protein)
         return fl(m.production.kcals)
 
     def built():
@@ -192,6 +201,9 @@ def run_real(case):
     obs["grass"] = fl(captured["md"].human_inedible_feed.kcals)
     obs["scp"] = fl(tc["methane_scp"].kcals)
     obs["cs"] = fl(tc["cellulosic_sugar"].kcals)
+    for nm, food in (("fish", tc["fish"].to_humans), ("feed", out[4]), ("biofuel", out[5]), ("scp", tc["methane_scp"]),
+                     ("cs", tc["cellulosic_sugar"])):
+        obs[nm + "_fat"], obs[nm + "_protein"] = fl(food.fat), fl(food.protein)
     obs["built_area"] = fl(tc["built_area"])
     obs["growth"] = fl(tc["growth_rates_monthly"])
     sf = co["stored_food"].initial_available
